@@ -45,6 +45,8 @@ def mpi (s : Stack) : Bool × Option Nat × List (Eventgroup × Addr) × List (A
 @[simp] theorem mpi_with_sendLog (s : Stack) (x : List (Dest × (Bool × Nat))) : mpi { s with sendLog := x } = mpi s := rfl
 @[simp] theorem mpi_with_outgoing_sendLog (s : Stack) (x : Outgoing) (y : List (Dest × (Bool × Nat))) : mpi { s with outgoing := x, sendLog := y } = mpi s := rfl
 @[simp] theorem mpi_with_findLog (s : Stack) (x : List (Nat × Nat)) : mpi { s with findLog := x } = mpi s := rfl
+@[simp] theorem mpi_with_findMarks (s : Stack) (x : List (Nat × Nat)) : mpi { s with findMarks := x } = mpi s := rfl
+@[simp] theorem mpi_markFind (s : Stack) (n : Nat) : mpi (s.markFind n) = mpi s := rfl
 @[simp] theorem mpi_with_offLog (s : Stack) (x : List (Nat × OEv × Nat)) : mpi { s with offLog := x } = mpi s := rfl
 @[simp] theorem mpi_logOffer (s : Stack) (i : Nat) (e : OEv) : mpi (s.logOffer i e) = mpi s := rfl
 @[simp] theorem mpi_with_flushLog (s : Stack) (x : List (Dest × List SDEntry)) : mpi { s with flushLog := x } = mpi s := rfl
